@@ -92,6 +92,9 @@ class bound_scalar_array(base_array):
         value = self._TYPE._check(value)
         if self._max_len and len(self) == self._max_len:
             raise ProphyError("exceeded array limit")
+        if isinstance(idx, int):
+            """ as a list does for any index beyond its ends (list.insert itself refuses integers beyond the machine word) """
+            idx = max(-len(self) - 1, min(len(self), idx))
         self._values.insert(idx, value)
 
     def extend(self, values):
@@ -168,15 +171,24 @@ class bound_composite_array(base_array):
             raise ProphyError("exceeded array limit")
 
         new_element = self._TYPE()
-        fields = set(field.name for field in new_element._descriptor) | set(["discriminator"])
+        fields = set(field.name for field in new_element._descriptor)
+        if issubclass(self._TYPE, union):
+            fields.add("discriminator")
         for name, value in attributes.items():
-            if name not in fields or name == "discriminator" and not issubclass(self._TYPE, union):
+            if name not in fields:
                 raise ProphyError("{} has no field {}".format(self._TYPE.__name__, name))
-            attr = getattr(new_element, name)
-            if isinstance(attr, base_array):
-                attr[:] = value
-            else:
-                setattr(new_element, name, value)
+            try:
+                attr = getattr(new_element, name)
+                if isinstance(attr, base_array):
+                    attr[:] = value
+                else:
+                    setattr(new_element, name, value)
+            except (AttributeError, TypeError):
+                """ the counter of an array, or an array of messages """
+                raise ProphyError("field {} of {} cannot be set by add()".format(name, self._TYPE.__name__))
+        if self._max_len and len(self) >= self._max_len:
+            """ the values may have been computed by code that added to this array """
+            raise ProphyError("exceeded array limit")
         self._values.append(new_element)
         return new_element
 
